@@ -309,9 +309,35 @@ func runC15(c *Ctx) {
 
 // c15HandleFn: the function of package dagsync that invokes Syncer.Sync.
 func c15HandleFn(c *Ctx) *ssa.Function {
+	if c.handleFn != nil {
+		return c.handleFn
+	}
 	for _, f := range c.Funcs(dagsyncPkg) {
 		if len(c.Calls(f.SSA, Invoke("dagsync.Syncer.Sync"))) > 0 {
-			return f.SSA
+			// the per-publisher sync routine is the outermost function the sync call belongs to: a step helper called
+			// from one function only is part of that function
+			fn := f.SSA
+			for d := 0; d < 3; d++ {
+				sites, known := c.staticCallSites(fn)
+				if !known || len(sites) == 0 {
+					break
+				}
+				var caller *ssa.Function
+				one := true
+				for _, s := range sites {
+					g := topFunc(s.Parent())
+					if caller != nil && g != caller {
+						one = false
+					}
+					caller = g
+				}
+				if !one || caller == nil || caller == fn || (caller.Object() != nil && caller.Object().Exported()) {
+					break
+				}
+				fn = caller
+			}
+			c.handleFn = fn
+			return fn
 		}
 	}
 	return nil
